@@ -118,7 +118,8 @@ func (c *c01Gen) leafOf(t c01Type) string {
 	case tList:
 		return fmt.Sprintf("v(%d, %s)", c.k(), c.g.Str("[]", "[1]", "[1, 2, 3]", "[0, 5]", "(1, 2)", "(3,)"))
 	default:
-		return fmt.Sprintf("v(%d, %s)", c.k(), c.g.Str("0", "1", "None", "''", "'a'", "[]", "[0]", "2", "False", "True", "()"))
+		// truth-tested values of every kind (these leaves feed conditions, not, and/or, is): zero and non-zero of each numeric type, Ellipsis
+		return fmt.Sprintf("v(%d, %s)", c.k(), c.g.Str("0", "1", "None", "''", "'a'", "[]", "[0]", "2", "False", "True", "()", "0j", "1j", "0.0", "-0.0", "0.5", "(1 if ... else 0)", "(not ...)", "{}", "{'k': 0}", "b''", "b'0'", "range(0)", "range(1)", "(1 if f else 0)", "(1 if o else 0)"))
 	}
 }
 
